@@ -450,12 +450,25 @@ class Real(object):
         self.b = bot.full(plugins=())
         self.irc = self.b.irc
         self.b.conf.supybot.followIdentificationThroughNickChanges.setValue(False)
+        import supybot.ircdb as ircdb
+        self.ircdb = ircdb
         self.logged = []
         self.b.log.exception = lambda *a, **k: self.logged.append(a)
         self.b.log.error = lambda *a, **k: None
     def reset(self):
         self.irc.reset()
         self.irc.queue.reset(); self.irc.fastqueue.reset()
+    def configure(self, cfg):
+        """supybot.followIdentificationThroughNickChanges and the user database (who is identified from where)"""
+        import time
+        self.b.conf.supybot.followIdentificationThroughNickChanges.setValue(bool(cfg.get('follow', False)))
+        db = self.ircdb.users
+        db.noFlush = True
+        db.users.clear(); db._nameCache.clear(); db._hostmaskCache.clear(); db.nextId = 0
+        for name, mask in cfg.get('identified', []):
+            u = db.newUser(); u.name = name
+            u.auth.append((time.time(), mask))
+            db.setUser(u)
     def make(self, pfx, cmd, args, raw=False, tag=None):
         M = self.b.ircmsgs.IrcMsg
         tags = {} if tag is None else {'batch': tag}
@@ -501,8 +514,9 @@ class Real(object):
         sup = st.supported
         isup = (('s' + wire.enc_opt(sup['chantypes'])) if 'chantypes' in sup else '~') + '/' + \
                (('n' if sup['channellen'] is None else str(sup['channellen'])) if 'channellen' in sup else '~')
+        auth = {u.name: [m for _, m in u.auth] for u in self.ircdb.users.users.values()}
         return {'nick': irc.nick, 'prefix': irc.prefix, 'chans': chans, 'hosts': hosts, 'isup': isup,
-                'batches': sorted(st.batches.keys())}
+                'batches': sorted(st.batches.keys()), 'auth': auth}
 
 def dump_text(s):
     """format of C10.dumpBot"""
@@ -513,7 +527,8 @@ def dump_text(s):
                   ','.join(sorted(wire.enc(m) + ':' + wire.enc_opt(x) for m, x in c['m'].items())) + ';c=' + str(c['c']) + ')')
     return ('N=' + wire.enc(s['nick']) + ' P=' + wire.enc(s['prefix']) + ' C=' + ' '.join(sorted(cs)) + ' H=' +
             ','.join(sorted(wire.enc(k) + '=' + wire.enc(m) for k, m in s['hosts'].items())) + ' I=' + s['isup'] +
-            ' B=' + enc_set(s['batches']))
+            ' B=' + enc_set(s['batches']) +
+            ' A=' + ';'.join(sorted(wire.enc(n) + ':' + enc_set(ms) for n, ms in s.get('auth', {}).items())))
 
 class ModeDiff(str):
     """a difference confined to a channel's modes dict (keeps both dicts for the finding classifier)"""
@@ -597,13 +612,15 @@ def init_line(cfg):
     b = lambda x: '1' if x else '0'
     return 'init\t' + '\t'.join([wire.enc(cfg['server']), b(cfg['multiPrefix']), b(cfg['uhnames']), b(cfg['extJoin']), b(cfg['chghost']),
             b(cfg['whox']), b(cfg.get('batch', True)), wire.enc(cfg['botNick']), wire.enc(cfg['botIdent']), wire.enc(cfg['botHost']),
-            str(cfg['namesPerLine']), wire.enc(cfg.get('chantypes', '#&')), wire.enc(str(cfg.get('channellen', 50)))])
+            str(cfg['namesPerLine']), wire.enc(cfg.get('chantypes', '#&')), wire.enc(str(cfg.get('channellen', 50))),
+            b(cfg.get('follow', False)), wire.enc_list([n + ' ' + m for n, m in cfg.get('identified', [])])])
 
 # ------------------------------------------------------------------------------------------
 # generators
 # ------------------------------------------------------------------------------------------
-NICKS = ['alice', 'Bob', 'carl', 'dave[1]', 'Eve^', 'f|ro', 'Gus`', 'hal_9', 'x-y']
-CHANS = ['#chan', '#Dev', '&local', '#a[1]', '#x|y', '#t~z^']
+# 'éric' / 'Éric' and '#café' / '#CAFÉ' are different names: rfc1459 casemapping folds A-Z and []\\~ only
+NICKS = ['alice', 'Bob', 'carl', 'dave[1]', 'Eve^', 'f|ro', 'Gus`', 'hal_9', 'x-y', '\u00e9ric', '\u00c9ric']
+CHANS = ['#chan', '#Dev', '&local', '#a[1]', '#x|y', '#t~z^', '#caf\u00e9', '#CAF\u00c9']
 _SWAP = str.maketrans('abcdefghijklmnopqrstuvwxyzABCDEFGHIJKLMNOPQRSTUVWXYZ[]{}\\|', 'ABCDEFGHIJKLMNOPQRSTUVWXYZabcdefghijklmnopqrstuvwxyz{}[]|\\')
 _SWAP_CHAN = str.maketrans('abcdefghijklmnopqrstuvwxyzABCDEFGHIJKLMNOPQRSTUVWXYZ[]{}\\|^~', 'ABCDEFGHIJKLMNOPQRSTUVWXYZabcdefghijklmnopqrstuvwxyz{}[]|\\~^')
 def casevar(r, s, keep=0):
@@ -628,7 +645,8 @@ def gen_cfg(r, kind):
     return {'server': r.choice(['irc.srv', 'hub.example.net']), 'multiPrefix': True if kind != 'nomp' else False,
             'uhnames': r.random() < 0.4, 'extJoin': r.random() < 0.4, 'chghost': r.random() < 0.8, 'whox': r.random() < 0.6, 'batch': r.random() < 0.7,
             'botNick': 'test', 'botIdent': 'limnoria', 'botHost': r.choice(['bot.host', 'Bot/Cloak']),
-            'namesPerLine': r.choice([1, 2, 3, 50]), 'chantypes': r.choice(['#&', '#&!+', '&#']), 'channellen': r.choice([50, 64, 200])}
+            'namesPerLine': r.choice([1, 2, 3, 50]), 'chantypes': r.choice(['#&', '#&!+', '&#']), 'channellen': r.choice([50, 64, 200]),
+            'follow': r.random() < 0.4, 'identified': []}
 
 def _some_nick(r, S, p_bot=0.2, p_bad=0.08):
     x = r.random()
@@ -792,15 +810,76 @@ def gen_hostile(r, S):
         return (S.cfg['server'], 'BATCH', [r.choice(['+ref1', '-ref1', '+b2', '-b2', '+', '-', 'ref1', '', '+zz'])] + [r.choice(['netsplit', 'x'])][:r.randint(0, 1)], tag)
     return (pf, cmd, args, tag)
 
+
+RAW_USERS = [('alice', 'a', 'ah'), ('Bob', 'b', 'bh'), ('carl', '~c', 'c.host'), ('\u00e9ric', 'e', 'eh'), ('\u00c9ric', 'E', 'EH')]
+RAW_CHANS = ['#a', '#b', '&c', '#Dev', '+plus', '~staff', '#' + 'x' * 59, '#caf\u00e9', '#CAF\u00c9']
+def gen_rawseq(r, cfg, length):
+    """a directed raw stream (bot and bot model only, no reference server): 005 with usual or unusual CHANTYPES / CHANNELLEN,
+    the bot's own JOIN of several new channels in ONE message (or one by one), then per-channel traffic that makes the
+    channels differ: NAMES, TOPIC, MODE, bans, joins, parts, kicks, nick changes"""
+    me = cfg['botNick']; mymask = '%s!%s@%s' % (me, cfg['botIdent'], cfg['botHost']); S = cfg['server']
+    out = []
+    if r.random() < 0.5:
+        out.append((S, '001', [me, 'Welcome'], None))
+    ct = r.choice(['#&', '#&+~', '#&~', '#&+'])
+    out.append((S, '005', [me, 'CHANTYPES=' + ct, 'CHANNELLEN=%d' % r.choice([50, 64, 200]), 'PREFIX=(ohv)@%+', 'are supported by this server'], None))
+    chans = r.sample(RAW_CHANS, r.choice([2, 2, 3]))
+    if r.random() < 0.75:
+        out.append((mymask, 'JOIN', [','.join(chans)], None))
+    else:
+        out += [(mymask, 'JOIN', [c], None) for c in chans]
+    mask = lambda u: '%s!%s@%s' % u
+    while len(out) < length:
+        c = r.choice(chans)
+        if r.random() < 0.15: c = casevar(r, c, keep=1)
+        u = r.choice(RAW_USERS); v = r.choice(RAW_USERS)
+        x = r.random()
+        if x < 0.15:
+            items = [r.choice(['', '@', '+', '%', '@+', '@%+']) + w[0] for w in r.sample(RAW_USERS, r.randint(1, 4))]
+            out.append((S, '353', [me, r.choice('=*@'), c, ' '.join(items + ([me] if r.random() < 0.5 else []))], None))
+        elif x < 0.2:
+            out.append((S, '366', [me, c, 'End of /NAMES list.'], None))
+        elif x < 0.32:
+            out.append((mask(u), 'JOIN', [c if r.random() < 0.7 else ','.join(r.sample(chans, 2))], None))
+        elif x < 0.4:
+            out.append((mask(u), 'PART', [c] + ([r.choice(TEXTS)] if r.random() < 0.5 else []), None))
+        elif x < 0.46:
+            out.append((r.choice([S, mask(v)]), 'KICK', [c, u[0], 'bye'], None))
+        elif x < 0.7:
+            ch = r.choice(['+o', '-o', '+v', '-v', '+h', '+b', '-b', '+m', '-m', '+s', '+k', '-k', '+l', '+ov', '+mb'])
+            args = []
+            for m in ch[1:]:
+                if m in 'ohv': args.append(r.choice(RAW_USERS)[0])
+                elif m == 'b': args.append(r.choice(BANS))
+                elif m == 'k': args.append('key')
+                elif m == 'l' and ch[0] == '+': args.append('10')
+            out.append((r.choice([S, mask(v)]), 'MODE', [c, ch] + args, None))
+        elif x < 0.78:
+            out.append((r.choice([S, mask(v)]), 'TOPIC', [c, r.choice(TEXTS)], None))
+        elif x < 0.82:
+            out.append((S, '332', [me, c, r.choice(TEXTS)], None))
+        elif x < 0.86:
+            out.append((S, '324', [me, c, r.choice(['+nt', '+s', '+mk', '+l'])] + [], None))
+        elif x < 0.9:
+            out.append((S, '367', [me, c, r.choice(BANS), S, '0'], None))
+        elif x < 0.93:
+            out.append((S, '329', [me, c, r.choice(['1234567', '42'])], None))
+        elif x < 0.97:
+            out.append((mask(u), 'NICK', [r.choice([casevar(r, u[0]), 'newnick', v[0]])], None))
+        else:
+            out.append((mask(u), 'QUIT', ['gone'], None))
+    return out
+
 # ------------------------------------------------------------------------------------------
 # one history on the implementation
 # ------------------------------------------------------------------------------------------
-KINDS = ('valid', 'valid', 'valid', 'valid', 'nomp', 'findings', 'hostile')
+KINDS = ('valid', 'valid', 'valid', 'valid', 'nomp', 'findings', 'hostile', 'rawseq')
 
 def run_history(real, cfg, script, check=True):
     """script: list of ('act', action) / ('msg', (pfx, cmd, args)).  Returns (impl_lines, oracle_failures, tags, nmsgs)
     oracle_failures: list of (index into script, [differences], modes_only)"""
     S = PySrv(cfg)
+    real.configure(cfg)
     real.reset()
     st0 = real.state()
     impl = ['ok ' + dump_text(st0) + '\t' + view_text(S.view())]
@@ -846,8 +925,11 @@ def script_lines(cfg, script):
 def gen_script(r, kind, length):
     """generate by running the Python reference server forward (actions depend on its state)"""
     cfg = gen_cfg(r, kind)
+    if kind == 'rawseq':
+        return cfg, [('msg', m) for m in gen_rawseq(r, cfg, length)]
     S = PySrv(cfg)
     script = []
+    nickmasks = []; masks = []
     fmode = r.choice(['intarg', 'extmodes']) if kind == 'findings' else False
     if fmode == 'extmodes':
         # a server whose ISUPPORT CHANMODES has further parameter modes (e.g. +f flood, +j join throttle);
@@ -865,8 +947,21 @@ def gen_script(r, kind, length):
                 pfx, cmd, args = ev[-3:]
                 if cmd == 'JOIN' and pfx == me:
                     S.enqueue([('MODE', [args[0]]), ('MODE', [args[0], '+b']), ('WHO', [args[0], '%tuhnairf,1'])])
+                if cmd == 'NICK' and pfx != me and pfx not in nickmasks:
+                    nickmasks.append(pfx)
                 me = S.users[S.bot].mask()
+            for i, u in S.users.items():
+                if i != S.bot and u.mask() not in masks: masks.append(u.mask())
             script.append(('act', a))
+    if cfg['follow']:
+        # who is identified to the bot, and from which hostmask: some of those whose NICK the bot will see, some others, nobody
+        chosen = []
+        for _ in range(r.choice([0, 1, 2, 3])):
+            pool = nickmasks if nickmasks and r.random() < 0.7 else masks
+            if pool:
+                m = r.choice(pool)
+                if m not in chosen: chosen.append(m)
+        cfg['identified'] = [['acct%d' % i, m] for i, m in enumerate(chosen)]
     return cfg, script
 
 def _mode_diff_classes(d):
@@ -1051,7 +1146,7 @@ def run(ctx):
     return verdict.conclude(PROPERTY, ctx.tier, ctx.seed, build, cases, search=search, finding_status=status, rule=RULE,
                             trusted_base=TRUSTED,
                             assumptions=['Python asserts enabled', 'server uses rfc1459 casemapping and the CHANMODES classes of the bot tables',
-                                         'supybot.followIdentificationThroughNickChanges is False (default)',
+                                         'registered users have no hostmask patterns; identification timeout 0 (default)',
                                          'mode arguments contain no non-ASCII decimal digits'],
                             extra={'history_steps_compared': nev}, t0=ctx.t0)
 
